@@ -291,7 +291,8 @@ deriving Repr, DecidableEq
 
 structure Run where
   ar : AR
-  /-- requests submitted and not yet completed: (index, page number) -/
+  /-- requests submitted and not yet completed: (index, page number); indices are unique (`submit` hands out
+  `request_index`, which only grows) -/
   out : List (Nat × Nat)
 
 /-- one step of a caller: `none` = the reader panicked -/
@@ -306,12 +307,12 @@ def Run.step (fixed : Bool) (σ : Store) (s : Run) : Act → Option (Ev × Run)
     | none => some (.idle, s)
     | some (i, pn) =>
       match σ pn with
-      | none => some (.ioError pn, { s with out := s.out.eraseIdx (j % s.out.length) })
+      | none => some (.ioError pn, { s with out := s.out.filter (fun e => e.1 != i) })
       | some page =>
         match s.ar.complete i page with
         | none => none
-        | some (none, ar) => some (.pending i, { ar := ar, out := s.out.eraseIdx (j % s.out.length) })
-        | some (some v, ar) => some (.value i v, { ar := ar, out := s.out.eraseIdx (j % s.out.length) })
+        | some (none, ar) => some (.pending i, { ar := ar, out := s.out.filter (fun e => e.1 != i) })
+        | some (some v, ar) => some (.value i v, { ar := ar, out := s.out.filter (fun e => e.1 != i) })
 
 /-- a whole schedule: the events, or `none` as soon as the reader panics -/
 def Run.run (fixed : Bool) (σ : Store) : Run → List Act → Option (List Ev × Run)
